@@ -112,6 +112,13 @@ func shapedAddr(shape string, k int) string {
 	return fmt.Sprintf("10.7.0.%d:9618", k+1)
 }
 
+// tcpGate paces the calls that go over real TCP loopback: every connection
+// leaves its ephemeral port in TIME_WAIT for 60 s and the range holds 28 k ports,
+// so an unpaced thorough run on a fast machine exhausts it ("bind: address
+// already in use" - a machinery problem, exit 2). 200 calls/s (<= 2 connections
+// each) stays well below that.
+var tcpGate = time.NewTicker(5 * time.Millisecond)
+
 func NewWorld07(v Variant07) (*World07, error) {
 	if (v.AddrShape != "" && v.AddrShape != "plain") || v.Break == "stall" {
 		v.API = "handshake"
@@ -199,6 +206,7 @@ func (w *World07) handshake(api, tag, addr, cmd string) hsObs {
 	w.St.Handshakes++
 	if api == "connect" && w.tcp {
 		w.St.ConnectCalls++
+		<-tcpGate.C // pace the TCP variant (see tcpGate)
 		for len(w.tcpCh) > 0 { // nothing of an earlier call may be left over
 			<-w.tcpCh
 		}
